@@ -320,7 +320,7 @@ Definition ex_q : request :=
      q_headers := [(bs "X-Forwarded-For", [bs "a"; bs "b"]); (bs "Content-Length", [bs "3"])];
      q_prefix := [SLASH]; q_user := []; q_cl := 3%Z;
      q_cookies := [(bs "sid", bs "abc")]; q_qargs := [(bs "a", bs "1")]; q_osenv := [];
-     q_host_hp := Some (bs "h.test", bs "8080"); q_remote_hp := Some (bs "::1", bs "9") |}.
+     q_host_hp := Some (bs "h.test", bs "8080"); q_remote_hp := Some (bs "::1", bs "9"); q_tls := None |}.
 Definition ex_sv : server := {| sv_name := bs "s"; sv_port := bs "80"; sv_software := bs "Casket"; sv_version := bs "1" |}.
 Definition ex_rule : rule :=
   {| r_path := r_path php_rule; r_ext := r_ext php_rule; r_split := r_split php_rule; r_index := [];
@@ -341,6 +341,35 @@ Example C13_env_configured_entries_exact_nonvacuous :
   end.
 Proof. vm_compute. repeat split; reflexivity. Qed.
 
+(* HTTPS=on reaches the responder exactly on TLS connections and REQUEST_SCHEME says https exactly
+   there — for EVERY rule and request that does not configure these names itself *)
+Theorem C13_env_scheme_vars :
+  forall cs sv r q f el,
+  env_list cs sv r q f = Ok el ->
+  (forall k, In k [bs "HTTPS"; bs "REQUEST_SCHEME"] ->
+     mem k (map (fun kv => env_name (fst kv)) (q_headers q)) = false /\ env_lookup k (r_env r) = None) ->
+  env_lookup (bs "HTTPS") el = match q_tls q with Some _ => Some (bs "on") | None => None end /\
+  env_lookup (bs "REQUEST_SCHEME") el = Some (match q_tls q with Some _ => bs "https" | None => bs "http" end).
+Proof. exact env_scheme_vars. Qed.
+Print Assumptions C13_env_scheme_vars.
+
+Definition ex_q_tls : request :=
+  {| q_method := bs "GET"; q_path := bs "/x.php"; q_query := []; q_requri := bs "/x.php";
+     q_host := bs "h.test"; q_remote := bs "10.0.0.1:1"; q_proto := bs "HTTP/2.0"; q_headers := [];
+     q_prefix := [SLASH]; q_user := []; q_cl := 0%Z; q_cookies := []; q_qargs := []; q_osenv := [];
+     q_host_hp := None; q_remote_hp := Some (bs "10.0.0.1", bs "1"); q_tls := Some (772, 4865) |}.
+
+(* TLS 1.3 with a TLS 1.3 suite: no mod_ssl name for either, the replacer says tls1.3 / UNKNOWN *)
+Example C13_env_scheme_vars_nonvacuous :
+  match env_list false ex_sv ex_rule ex_q_tls (bs "/x.php"), env_list false ex_sv ex_rule ex_q (bs "/x.php") with
+  | Ok el, Ok el0 =>
+      env_lookup (bs "HTTPS") el = Some (bs "on") /\ env_lookup (bs "REQUEST_SCHEME") el = Some (bs "https") /\
+      env_lookup (bs "SSL_PROTOCOL") el = None /\ env_lookup (bs "CIPHER") el = Some (bs "UNKNOWN") /\
+      env_lookup (bs "HTTPS") el0 = None /\ env_lookup (bs "REQUEST_SCHEME") el0 = Some (bs "http")
+  | _, _ => False
+  end.
+Proof. vm_compute. repeat split; reflexivity. Qed.
+
 Example C13_env_absent_value_is_empty_string_nonvacuous :
   absent_for ex_q (bs "{>X-Auth-User}") /\ absent_for ex_q (bs "{~nocookie}") /\
   absent_for ex_q (bs "{?zz}") /\ absent_for ex_q (bs "{tls_cipher}") /\ absent_for ex_q (bs "{nope}").
@@ -349,8 +378,8 @@ Proof.
   - left. exists (bs "X-Auth-User"). vm_compute. repeat split; reflexivity.
   - right; left. exists (bs "nocookie"). vm_compute. repeat split; reflexivity.
   - right; right; left. exists (bs "zz"). vm_compute. repeat split; reflexivity.
-  - right; right; right; right; left. vm_compute. tauto.
-  - right; right; right; right; right. exists 110. vm_compute. repeat split; reflexivity.
+  - right; right; right; right; right; left. split; [reflexivity|]. vm_compute. tauto.
+  - right; right; right; right; right; right. exists 110. vm_compute. repeat split; reflexivity.
 Qed.
 
 Example C13_split_env_spec_nonvacuous :
